@@ -153,6 +153,10 @@ NEEDS = {
     "C16_m7": "a transfer into an account and a disposal from it at the same timestamp, the balance before that instant smaller than the disposal, no -n",
     "C19_m7": "a taxable event whose local year differs from its UTC year (Summary links bucket rows by UTC year)",
     "C20_m7": "two transactions of one asset at the same timestamp (same-second fills, buy and sell, or the artificial fee of a crypto-fee purchase)",
+    # round 5 (three changes, the agents were given a list of kinds of trigger and asked to avoid the obvious one-liner)
+    "C06_m8": "one taxable event split over lots on both sides of the one-year holding boundary (summary key cached per event: the SHORT fraction lands on the LONG line)",
+    "C07_m8": "two different holders with accounts on the same exchange (Account equality ignores the holder)",
+    "C14_m8": "rp2_us with a from-date later than some fraction of a transaction type, two assets (row counters advanced by a count that ignores the from-date: gap rows, empty sheets kept)",
     "C17_m7": "-f mid-year, two assets, the later asset's events of that year all before the from-date while the earlier asset has one after it (Summary link row keyed by year only)",
     "C12_m7": "-m equal to the country's default method together with an [accounting_methods] section in the config (conflict no longer rejected)",
 }
